@@ -558,29 +558,37 @@ theorem reads_independent_of_history_with_locks {α} (z : α) (lut : List LutRow
   rw [region_query_cursor_is_closed, runHistoryL_closed, runHistory_indep]
 
 /-- **Counterexample for the iterator as it was before `/repo` e921751** (cursor not closed on exit, `closes = false`): a caller that
-keeps the exception of a read refused while its rows were being copied (combining overlapping segments) gets EVERY later read of that
-object refused — "database table is locked" — although the same read on a fresh object is answered.  Witness: an (empty) 5 × 4
-segmentation in 2 × 3 tiles; step 1 refused mid-iteration, step 2 a stacked read of segment 1. -/
+keeps the exception of a read refused inside the `with` block (its frame query had a row) gets EVERY later segment-aware read of that
+object refused — "database table is locked" — although the same read on a fresh object is answered, and is answered after the same
+history by the iterator that closes its cursor.  Witness: one stored frame of segment 1 (tile (1, 1) of a 5 × 4 matrix in 2 × 3 tiles);
+step 1 a combined read of segments 1, 2 refused in the block, step 2 a stacked read of segment 1. -/
 theorem counterexample_cursor_left_open :
-    ((runHistoryL (0 : Int) [] [] 5 4 2 3 false true false true
-        [⟨[(1, 1), (2, 2)], 3, none, none, none, none, false, true, false, true⟩, stackedRequest [1] none none none none false]
-        ⟨none, false⟩).1.map Except.toBool) = [false, false] ∧
-    (∃ out, (stepRead (0 : Int) [] [] 5 4 2 3 false true (stackedRequest [1] none none none none false) none).2 = .ok (5, 4, out)) ∧
-    ((runHistoryL (0 : Int) [] [] 5 4 2 3 false true true true
-        [⟨[(1, 1), (2, 2)], 3, none, none, none, none, false, true, false, true⟩, stackedRequest [1] none none none none false]
-        ⟨none, false⟩).1.map Except.toBool) = [false, true] := by
-  refine ⟨by decide, ?_, ?_⟩
-  · obtain ⟨out, h, _⟩ := stepRead_stacked_spec (0 : Int) (fun _ _ _ => 0) [] [] 5 4 2 3 (by decide) (by decide) rfl [1]
-      (fun s _ r hr => by simp [chanRows] at hr) none none none none false false none 1 6 1 5 (by decide) (by decide) (by decide)
+    let lut : List LutRow := [⟨1, 1, 0, 1⟩]
+    let frames : List (Img Int) := [fun _ _ => 0]
+    let q1 : ChanRead := ⟨[(1, 1), (2, 2)], 3, none, none, none, none, false, true, false⟩
+    let q2 : ChanRead := stackedRequest [1] none none none none false
+    stepReadL (0 : Int) lut frames 5 4 2 3 false true false true q1 ⟨none, false⟩ = (⟨some [(1, 1), (2, 2)], true⟩, .error .value) ∧
+    stepReadL (0 : Int) lut frames 5 4 2 3 false true false true q2 ⟨some [(1, 1), (2, 2)], true⟩ =
+      (⟨some [(1, 1), (2, 2)], true⟩, .error .other) ∧
+    (∃ out, (stepRead (0 : Int) lut frames 5 4 2 3 false true q2 none).2 = .ok (5, 4, out)) ∧
+    (∃ out, (stepReadL (0 : Int) lut frames 5 4 2 3 false true true true q2
+              (stepReadL (0 : Int) lut frames 5 4 2 3 false true true true q1 ⟨none, false⟩).1).2 = .ok (5, 4, out)) := by
+  intro lut frames q1 q2
+  have hfresh : ∀ st, ∃ out, (stepRead (0 : Int) lut frames 5 4 2 3 false true q2 st).2 = .ok (5, 4, out) := by
+    intro st
+    obtain ⟨out, h, _⟩ := stepRead_stacked_spec (0 : Int) (fun _ _ _ => 0) lut frames 5 4 2 3 (by decide) (by decide) (by decide) [1]
+      (fun s _ r hr => by
+        simp only [lut, chanRows, List.mem_filter, List.mem_cons, List.not_mem_nil, or_false] at hr
+        obtain ⟨rfl, _⟩ := hr
+        exact ⟨fun _ _ => 0, rfl, fun _ _ _ _ _ _ _ _ => rfl⟩)
+      none none none none false false st 1 6 1 5 (by decide) (by decide) (by decide)
     exact ⟨out, by rw [h]; rfl⟩
-  · rw [runHistoryL_closed, runHistory_indep]
-    obtain ⟨out, h, _⟩ := stepRead_stacked_spec (0 : Int) (fun _ _ _ => 0) [] [] 5 4 2 3 (by decide) (by decide) rfl [1]
-      (fun s _ r hr => by simp [chanRows] at hr) none none none none false false none 1 6 1 5 (by decide) (by decide) (by decide)
-    simp only [List.map_cons, List.map_nil, h]
-    have h1 : (stepRead (0 : Int) [] [] 5 4 2 3 false true ⟨[(1, 1), (2, 2)], 3, none, none, none, none, false, true, false, true⟩ none).2.toBool = false := by
-      decide
-    rw [h1]
-    rfl
+  refine ⟨?_, ?_, hfresh none, ?_⟩
+  · exact stepReadL_refused_locks (0 : Int) lut frames 5 4 2 3 false true q1 none 1 6 1 5 6 rfl (by decide) (by decide) (by decide)
+      (by decide) rfl (by decide) ⟨1, 1, 0, 1⟩ (by simp [lut]) (by decide) (1, 1) (by simp [q1]) rfl
+  · exact stepReadL_locked_refuses (0 : Int) lut frames 5 4 2 3 false true false true q2 _ 1 6 1 5 6 rfl (by decide) (by decide) (by decide)
+  · rw [stepReadL_closed, stepReadL_closed]
+    exact hfresh _
 
 /-- `Segmentation.get_volume` has its own copy of the tiled branch (seg/sop.py); its two calls are regenerated as well (T4fw) and are
 the calls of `Image.get_volume` (T4fv), so `volume_region_is_matrix_region` speaks about both accessors. -/
@@ -852,8 +860,8 @@ example : nonemptyTileCall 2 3 5 4 = .ok (5, 4, 2, 3) := by decide
 history = a combined read refused inside the `with` block (its table rows (1, 1), (2, 2) survive), a request outside the matrix,
 then a stacked read of segments [2, 1] (other order than stored) for the last two rows -/
 def exHistory : List ChanRead :=
-  [⟨[(1, 1), (2, 2)], 2, none, none, none, none, false, true, false, false⟩,
-   ⟨[(0, 1)], 1, some 9, none, none, none, false, false, false, false⟩,
+  [⟨[(1, 1), (2, 2)], 2, none, none, none, none, false, true, false⟩,
+   ⟨[(0, 1)], 1, some 9, none, none, none, false, false, false⟩,
    stackedRequest [2, 1] (some (-2)) none none (some (-1)) false]
 def exMseg : Int → Img Int := fun s => if s = 1 then exM else fun _ _ => 0
 theorem exMem : ∀ s ∈ [(2 : Int), 1], (s, exMseg s) ∈ [((1 : Int), exM), (2, fun _ _ => 0)] := by
@@ -907,7 +915,7 @@ example : runOps tempTableSetup [(1, 1), (1, 2)] (some [(0, 3)]) = (some [], som
     runOps tempTableCleanup [] (some [(0, 1)]) = (none, none) := by decide
 /-- LABELMAP instantiated: the label matrix `exM` (5 × 4 in 2 × 3 tiles, TILED_FULL) read after a refused read and a read outside the matrix -/
 def exLabelHistory : List ChanRead :=
-  [⟨[], 1, none, none, none, none, false, true, true, false⟩, labelmapRequest (some 9) none none none false,
+  [⟨[], 1, none, none, none, none, false, true, true⟩, labelmapRequest (some 9) none none none false,
    labelmapRequest (some (-2)) none none (some (-1)) false]
 example : ∃ results out, tileThenHistory (0 : Int) [(0, exM)] 5 4 2 3 true false exLabelHistory = .ok results ∧
     results[2]? = some (.ok (2, 3, out)) ∧ out 0 1 2 = 42 := by
